@@ -16,7 +16,7 @@ MANIFEST_INFO = {
     "engine": "A",
     "design_ref": "DESIGN.md section 5, C02",
     "technique": "stateless deviation-bounded DFS over stage/cleanup/fixture behaviours of generated TestCase programs whose cleanups, patches and (nested) fixtures are registered at every site (setUp before/after the up-call, test, tearDown, inside another cleanup); execution log compared with the stack-discipline lifecycle model; second run() of the same instance replayed from memoised decisions",
-    "level_text": "For every ordered selection of up to 3 registrations from 22 kinds (patch of a staticmethod / classmethod of a class, of a staticmethod a subclass inherits, cleanup at 4 sites, cleanup registered by a cleanup, patch of an existing/missing attribute incl. double patch, fixture at 3 sites, nested fixture, a fixture whose getDetails raises after a successful setUp, an addOnException handler that itself raises when told about an exception of the test method or tearDown) and every program with at most 2 (quick) / 3 (thorough) deviating stages or fixture hooks, the real run is compared with the model: setUp first, test+tearDown iff setUp returned, then the cleanup stack popped to empty (each registration exactly once, LIFO, BaseExceptions included), patched attributes restored, and a second run() of the same instance produces the same log and outcome. Two clones of one prototype (clone_test_with_new_id) are additionally run as two threads under the scheduler, every stage body being a scheduling point (<= 2 preemptions/deviations): each clone must run exactly its own cleanups.",
+    "level_text": "For every ordered selection of up to 3 registrations from 24 kinds (the same cleanup registered twice with another one in between, patch of a property-backed attribute, patch of a staticmethod / classmethod of a class, of a staticmethod a subclass inherits, cleanup at 4 sites, cleanup registered by a cleanup, patch of an existing/missing attribute incl. double patch, fixture at 3 sites, nested fixture, a fixture whose getDetails raises after a successful setUp, an addOnException handler that itself raises when told about an exception of the test method or tearDown) and every program with at most 2 (quick) / 3 (thorough) deviating stages or fixture hooks, the real run is compared with the model: setUp first, test+tearDown iff setUp returned, then the cleanup stack popped to empty (each registration exactly once, LIFO, BaseExceptions included), patched attributes restored, and a second run() of the same instance produces the same log and outcome. Two clones of one prototype (clone_test_with_new_id) are additionally run as two threads under the scheduler, every stage body being a scheduling point (<= 2 preemptions/deviations): each clone must run exactly its own cleanups.",
     "level_note": "Programs always up-call; fixtures use the fixtures 4.x _setUp protocol; attribute writes on the patched object are logged by the object itself.",
 }
 
@@ -43,6 +43,8 @@ REGS = (
     "patch_staticmethod@test",
     "patch_classmethod@setUp",
     "patch_inherited_staticmethod@test",
+    "patch_property@test",
+    "dup_cleanup@test",
 )
 
 FX_SETUP_MENU = (pg.RET, pg.ERROR, pg.KBI)
@@ -149,6 +151,58 @@ def do_patch_class(case, ctx, site, action):
     case.patch(_patched_class(ctx), action[1], lambda *a: "patched")
 
 
+def _cleanup_dup(case, ctx, rid):
+    """Registered twice with identical arguments (a bound "leave one level" method, say): the
+    two registrations are distinguished by the order in which they run."""
+    n = ctx.counts.get(("dup", rid), 0) + 1
+    ctx.counts[("dup", rid)] = n
+    return pg._cleanup(case, ctx, "%s#%d" % (rid, n))
+
+
+def do_dup_cleanup(case, ctx, site, action):
+    rid = action[1]
+    case.addCleanup(_cleanup_dup, case, ctx, rid)
+    case.addCleanup(pg._cleanup, case, ctx, rid + "m")
+    case.addCleanup(_cleanup_dup, case, ctx, rid)
+
+
+def model_dup_cleanup(model, site, action):
+    rid = action[1]
+    model.stack.append(("cdup", rid))
+    model.stack.append(("c", rid + "m"))
+    model.stack.append(("cdup", rid))
+
+
+def model_dup_pop(model, item):
+    rid = item[1]
+    n = model.counts.get(("dup", rid), 0) + 1
+    model.counts[("dup", rid)] = n
+    model.stage("c:%s#%d" % (rid, n))
+
+
+class PropObj:
+    """An attribute that exists but does not live in the object's own __dict__: a property
+    with a setter and no deleter (a slot of a base class and a forwarding proxy behave alike)."""
+
+    def __init__(self):
+        self._level = "orig-level"
+
+    @property
+    def level(self):
+        return self._level
+
+    @level.setter
+    def level(self, value):
+        self._level = value
+
+
+def do_patch_prop(case, ctx, site, action):
+    o = ctx.extra.get("propobj")
+    if o is None:
+        o = ctx.extra["propobj"] = PropObj()
+    case.patch(o, "level", "patched-level")
+
+
 def do_patch_subclass(case, ctx, site, action):
     _patched_class(ctx)
     case.patch(ctx.extra["subklass"], action[1], lambda *a: "patched")
@@ -157,7 +211,10 @@ def do_patch_subclass(case, ctx, site, action):
 def class_patch_problems(ctx):
     k = ctx.extra.get("klass")
     out = []
+    o = ctx.extra.get("propobj")
     if k is None:
+        if o is not None and o.level != "orig-level":
+            out.append(("patch-restore", "property-backed attribute 'level' is %r after run(), was 'orig-level'" % (o.level,)))
         return out
     for name, raw in ctx.extra["klass_raw"].items():
         now = vars(k).get(name, "<absent>")
@@ -167,6 +224,9 @@ def class_patch_problems(ctx):
             except Exception as e:
                 works = "raises %s" % type(e).__name__
             out.append(("patch-restore", "class attribute %r was a %s before the test and is %r afterwards (still works as before: %s)" % (name, type(raw).__name__, now, works)))
+    o = ctx.extra.get("propobj")
+    if o is not None and o.level != "orig-level":
+        out.append(("patch-restore", "property-backed attribute 'level' is %r after run(), was 'orig-level'" % (o.level,)))
     sub = ctx.extra["subklass"]
     try:
         got = (sub().sm(), type("SubSub", (sub,), {}).cm())
@@ -180,6 +240,11 @@ def class_patch_problems(ctx):
 pg.ACTION_HANDLERS["fixture"] = do_fixture
 pg.ACTION_HANDLERS["patch_class"] = do_patch_class
 pg.ACTION_HANDLERS["patch_subclass"] = do_patch_subclass
+pg.ACTION_HANDLERS["dup_cleanup"] = do_dup_cleanup
+pg.MODEL_ACTION_HANDLERS["dup_cleanup"] = model_dup_cleanup
+pg.MODEL_STACK_HANDLERS["cdup"] = model_dup_pop
+pg.ACTION_HANDLERS["patch_prop"] = do_patch_prop
+pg.MODEL_ACTION_HANDLERS["patch_prop"] = lambda model, site, action: model.stack.append(("noop",))
 pg.MODEL_ACTION_HANDLERS["patch_subclass"] = lambda model, site, action: model.stack.append(("noop",))
 pg.MODEL_ACTION_HANDLERS["patch_class"] = lambda model, site, action: model.stack.append(("noop",))
 pg.MODEL_STACK_HANDLERS["noop"] = lambda model, item: None
@@ -297,6 +362,10 @@ def build_actions(regs):
             actions.setdefault(site, []).append(("patch_class", "cm"))
         elif kind == "patch_inherited_staticmethod":
             actions.setdefault(site, []).append(("patch_subclass", "sm"))
+        elif kind == "patch_property":
+            actions.setdefault(site, []).append(("patch_prop",))
+        elif kind == "dup_cleanup":
+            actions.setdefault(site, []).append(("dup_cleanup", rid))
         else:
             raise AssertionError(r)
     return actions
@@ -508,7 +577,7 @@ def meta(tier):
     return {
         "technique": MANIFEST_INFO["technique"],
         "rule": "for every registration selection: every choice sequence with <= bound deviating stages / fixture hooks; each execution runs the instance twice; non-trivial = >= 1 deviation; distinct = distinct (registrations, execution log, outcome)",
-        "bounds": {"registrations": "all ordered selections of <=2 of 22 kinds; triples core x any x core (quick) / all triples plus all pairs between two plain cleanups (thorough)", "deviations": 2 if tier == "quick" else 3, "stage_kinds": list(KINDS)},
+        "bounds": {"registrations": "all ordered selections of <=2 of 24 kinds; triples core x any x core (quick) / all triples plus all pairs between two plain cleanups (thorough)", "deviations": 2 if tier == "quick" else 3, "stage_kinds": list(KINDS)},
         "assumptions": ["programs always up-call", "cleanup functions registered by the harness are distinct objects with unique ids"],
     }
 
